@@ -1,6 +1,6 @@
 //! C02: the client-reachable helpers no other property calls directly —
 //! `kvarn_utils::parse::query` + `Query`'s iterators, `comprash::PathQuery`, and (exploration)
-//! the `time` crate's parser for `if-modified-since` as `handle_cache` calls it.
+//! `url_crawl`'s link iterators.
 //! Every call runs under `crate::guarded`: a panic is the outcome `(L (N 2))`.
 use crate::xval::X;
 use kvarn::prelude::*;
@@ -92,29 +92,61 @@ fn pathquery(x: &X) -> X {
     X::L(vec![p, q])
 }
 
-/// exploration: `if-modified-since` as `handle_cache` treats it on a cache hit
-/// (`HeaderValue::to_str`, `PrimitiveDateTime::parse(s, &HTTP_DATE)`, `assume_utc`, `>= creation - 1 s`).
-fn explore_date(x: &X) -> X {
-    use kvarn::prelude::chrono::*;
+/// exploration: `url_crawl` (anchor url-crawl/src/lib.rs; the HTTP/2 push extension runs `get_urls` on every HTML page
+/// it serves, the reverse proxy runs the absolute-path iterator on upstream bodies).  input: (B html)
+fn explore_urls(x: &X) -> X {
     let v = match x.as_b() {
         Some(b) => b,
         None => return X::bad(),
     };
-    let hv = match HeaderValue::from_bytes(v) {
-        Ok(h) => h,
-        Err(_) => return ood(),
-    };
     match std::panic::catch_unwind(std::panic::AssertUnwindSafe(|| {
-        let creation = OffsetDateTime::now_utc();
-        let ims: Option<OffsetDateTime> = hv
-            .to_str()
-            .ok()
-            .and_then(|s| time::PrimitiveDateTime::parse(s, &comprash::HTTP_DATE).ok().map(time::PrimitiveDateTime::assume_utc));
-        ims.map_or(false, |timestamp| timestamp >= creation - 1.seconds())
+        let mut n = 0usize;
+        if let Ok(s) = std::str::from_utf8(v) {
+            n += url_crawl::get_urls(s).count();
+        }
+        n += url_crawl::LinkIter::new_with_aboslute_paths_filter(v).count();
+        n += url_crawl::LinkIter::new(v, url_crawl::filters::resource, true).count();
+        n
     })) {
         Ok(_) => X::ok(X::L(vec![])),
-        Err(_) => X::L(vec![X::N(2), X::b(b"panic in if-modified-since handling")]),
+        Err(_) => X::L(vec![X::N(2), X::b(b"panic in url_crawl")]),
     }
+}
+
+/// input: (L (N filter) (N interdomain) (B data)) -> outcome of the items of `url_crawl::LinkIter`;
+/// filter 0 = every quote, 1 = `filters::absolute_path`, 2 = `filters::resource`
+fn urls_iter(x: &X) -> X {
+    fn every(_: &[u8], _: usize) -> bool {
+        true
+    }
+    let l = match x.as_l() {
+        Some(l) if l.len() == 3 => l,
+        _ => return X::bad(),
+    };
+    let (Some(f), Some(inter), Some(data)) = (l[0].as_n(), l[1].as_bool(), l[2].as_b()) else { return X::bad() };
+    let filter: fn(&[u8], usize) -> bool = match f {
+        1 => url_crawl::filters::absolute_path,
+        2 => url_crawl::filters::resource,
+        _ => every,
+    };
+    crate::guarded(|| {
+        let items = url_crawl::LinkIter::new(data, filter, inter)
+            .map(|i| match i {
+                url_crawl::IterItem::Path { path, before, quote_type } => X::L(vec![
+                    X::N(1),
+                    X::b(path),
+                    X::n(before.len()),
+                    X::N(match quote_type {
+                        url_crawl::QuoteType::Single => 0,
+                        url_crawl::QuoteType::Double => 1,
+                        url_crawl::QuoteType::Backtick => 2,
+                    }),
+                ]),
+                url_crawl::IterItem::Last(rest) => X::L(vec![X::N(0), X::b(rest)]),
+            })
+            .collect();
+        X::ok(X::L(items))
+    })
 }
 
 /// input: (L checked (B value)) -> outcome (L (L [max_age]) no_store)
@@ -133,12 +165,11 @@ fn cc_kvarn(x: &X) -> X {
     let s = std::str::from_utf8(v).expect("ascii");
     crate::guarded(|| match utils::parse::CacheControl::from_kvarn_cache_control(s) {
         Ok(cc) => {
-            // the fields are private: take them from the derived Debug text
-            let d = format!("{cc:?}");
-            let max_age = d.split("max_age: ").nth(1).and_then(|r| {
-                r.strip_prefix("Some(").and_then(|r| r.split(')').next()).and_then(|n| n.parse::<u128>().ok())
-            });
-            let no_store = d.contains("no_store: true");
+            // the fields are private; the public accessors: `as_freshness()` is `max_age`, `store()` is
+            // `!no_store || max_age > 60` — for every value this function yields (`none`: no max-age; a lifetime: no_store
+            // false) `!store()` is `no_store`
+            let max_age = cc.as_freshness().map(u128::from);
+            let no_store = !cc.store();
             X::ok(X::L(vec![X::opt(max_age.map(X::N)), X::bool(no_store)]))
         }
         Err(e) => {
@@ -160,7 +191,8 @@ pub fn dispatch(comp: &str, x: &X) -> Option<X> {
         "query.iter" | "query.iter_v0" => query_iter(x),
         "pathquery" => pathquery(x),
         "cc.kvarn" => cc_kvarn(x),
-        "explore.date" => explore_date(x),
+        "explore.urls" => explore_urls(x),
+        "urls.iter" => urls_iter(x),
         _ => return None,
     })
 }
